@@ -25,17 +25,17 @@ import (
 
 // sOps is what the alteration matrix needs from one Schnorr-like suite.
 type sOps[GE schnorrlike.GroupElement[GE, S], S schnorrlike.Scalar[S], M any] struct {
-	name    string
-	group   algebra.PrimeGroup[GE, S]
-	neg     bool // s = k - e d
-	det     bool // signing is deterministic
-	newKey  func(prng io.Reader) (*schnorrlike.PrivateKey[GE, S], *schnorrlike.PublicKey[GE, S])
-	sign    func(sk *schnorrlike.PrivateKey[GE, S], m M) (*schnorrlike.Signature[GE, S], error)
-	verify  func(sig *schnorrlike.Signature[GE, S], pk *schnorrlike.PublicKey[GE, S], m M) error
-	msgs    func(prng io.Reader) (M, M)                          // a message and the same with one bit flipped
-	secret  func(sk *schnorrlike.PrivateKey[GE, S]) S            // the scalar d with s = k +- e d (BIP-340: parity adjusted)
-	oracle  func(sig *schnorrlike.Signature[GE, S], pk *schnorrlike.PublicKey[GE, S], m M) bool // independent verifier on bytes (nil if none)
-	batch   func(sigs []*schnorrlike.Signature[GE, S], pks []*schnorrlike.PublicKey[GE, S], ms []M) error
+	name   string
+	group  algebra.PrimeGroup[GE, S]
+	neg    bool // s = k - e d
+	det    bool // signing is deterministic
+	newKey func(prng io.Reader) (*schnorrlike.PrivateKey[GE, S], *schnorrlike.PublicKey[GE, S])
+	sign   func(sk *schnorrlike.PrivateKey[GE, S], m M) (*schnorrlike.Signature[GE, S], error)
+	verify func(sig *schnorrlike.Signature[GE, S], pk *schnorrlike.PublicKey[GE, S], m M) error
+	msgs   func(prng io.Reader) (M, M)                                                         // a message and the same with one bit flipped
+	secret func(sk *schnorrlike.PrivateKey[GE, S]) S                                           // the scalar d with s = k +- e d (BIP-340: parity adjusted)
+	oracle func(sig *schnorrlike.Signature[GE, S], pk *schnorrlike.PublicKey[GE, S], m M) bool // independent verifier on bytes (nil if none)
+	batch  func(sigs []*schnorrlike.Signature[GE, S], pks []*schnorrlike.PublicKey[GE, S], ms []M) error
 }
 
 func rawSPK[GE schnorrlike.GroupElement[GE, S], S schnorrlike.Scalar[S]](v GE) *schnorrlike.PublicKey[GE, S] {
@@ -225,7 +225,9 @@ func vanillaOps[GE algebra.PrimeGroupElement[GE, S], S algebra.PrimeFieldElement
 			must(err)
 			return sg.Sign(m)
 		},
-		verify: func(sig *schnorrlike.Signature[GE, S], pk *schnorrlike.PublicKey[GE, S], m []byte) error { return vf.Verify(sig, pk, m) },
+		verify: func(sig *schnorrlike.Signature[GE, S], pk *schnorrlike.PublicKey[GE, S], m []byte) error {
+			return vf.Verify(sig, pk, m)
+		},
 		msgs:   byteMsgs(func() int { return rnd.IntN(1 << 20) }),
 		secret: func(sk *schnorrlike.PrivateKey[GE, S]) S { return sk.Value() },
 		oracle: oracle,
@@ -272,7 +274,9 @@ func runSchnorr(n int, only string) {
 			oracle: func(sig *bip340.Signature, pk *bip340.PublicKey, m []byte) bool {
 				return bip340Verify(x32(pk.Value()), m, slices.Concat(x32(sig.R), sig.S.Bytes()))
 			},
-			batch: func(sigs []*bip340.Signature, pks []*bip340.PublicKey, ms [][]byte) error { return vf.BatchVerify(sigs, pks, ms) },
+			batch: func(sigs []*bip340.Signature, pks []*bip340.PublicKey, ms [][]byte) error {
+				return vf.BatchVerify(sigs, pks, ms)
+			},
 		}, n)
 	}
 	if want("schnorr-k256-sha256") {
@@ -347,7 +351,9 @@ func runSchnorr(n int, only string) {
 				return mk(txt), mk(flipBit(txt, rnd.IntN(1<<20)))
 			},
 			secret: func(sk *mina.PrivateKey) *pasta.PallasScalar { return sk.Value() },
-			batch: func(sigs []*mina.Signature, pks []*mina.PublicKey, ms []*mina.ROInput) error { return vf.BatchVerify(sigs, pks, ms) },
+			batch: func(sigs []*mina.Signature, pks []*mina.PublicKey, ms []*mina.ROInput) error {
+				return vf.BatchVerify(sigs, pks, ms)
+			},
 		}, n)
 	}
 }
